@@ -69,6 +69,7 @@ func (h *stdHarness) Step(ev *Event, step int) (Result, *Violation) {
 		o.Before(h.w, ev)
 	}
 	res := h.w.Apply(ev)
+	debugAuc(h.w, ev, res)
 	if h.w.Panicked != "" {
 		if h.spec.PanicIsViolation {
 			return res, &Violation{Property: h.spec.ID, OracleID: strings.ToLower(h.spec.ID) + ".no_panic", Signature: panicSig(h.w.Panicked), Detail: h.w.Panicked, Step: step}
